@@ -63,6 +63,22 @@ package scen
 //     store, asked through its public interface, lists the local peer for the
 //     key. The caller's context is always live when the call starts and the
 //     datastore never fails here, so nothing excuses a missing record.
+//   * pv-store-own encodes "when its closest-peers lookup succeeds, PutValue HAS
+//     STORED THE RECORD locally first". The subject of the clause is the call:
+//     each PutValue whose lookup succeeded stores the record it is about to send,
+//     itself, before the first PUT_VALUE leaves. A copy of the same bytes that an
+//     EARLIER operation left in the datastore is not this call's store (a local
+//     record is kept from the time it was stored; a publisher that puts the same
+//     value again - what every periodic republisher does - and relies on the
+//     old copy is the one node among "closest peers + self" that does not get
+//     the record of this call). Observed on the recording datastore: a
+//     successful write of a record with that key and value that happened after
+//     the operation started and no later than the step in which its first
+//     PUT_VALUE reached the sender (when the lookup returned no peer at all:
+//     before the operation returned). The generator therefore puts the same
+//     key again - the same value (a republish), a better or a worse one - after
+//     a drawn stretch of virtual time (none, below a second, minutes). Nothing
+//     is demanded of a put that was refused or whose lookup did not succeed.
 
 import (
 	"bytes"
@@ -104,7 +120,8 @@ func init() {
 	}
 	reg("put-value", 3, runC06PutValue,
 		"fault_recipient_bad_echo", "probe_put_ok", "probe_put_refused_older", "probe_put_over_existing", "probe_put_lookup_failed",
-		"probe_recipient_failed_others_served", "probe_recipient_hung_others_served", "probe_followup_peer_in_R", "probe_R_smaller_than_K")
+		"probe_recipient_failed_others_served", "probe_recipient_hung_others_served", "probe_followup_peer_in_R", "probe_R_smaller_than_K",
+		"probe_put_own_store_judged", "probe_put_own_store_judged_no_recipient", "probe_put_republish_same_value", "probe_put_republish_judged", "probe_put_after_time_gap")
 	reg("provide-classic", 3, func(s *sim.Sim) { runC06Provide(s, false, false) },
 		"probe_addrs_changed_with_event", "probe_addrs_changed_silently", "probe_provide_after_addr_change",
 		"probe_provide_ok", "probe_all_addrs_filtered", "probe_filter_dropped_some", "probe_provide_deadline_ctx", "probe_provide_deadline_exceeded", "probe_provide_lookup_failed",
@@ -524,6 +541,7 @@ type c06OpObs struct {
 	base      int // length of the sender log when the operation started
 	arrBase   int
 	getBase   int
+	dsBase    int // length of the datastore log when the operation started
 	startAt   time.Duration
 	deadline  time.Duration // 0: none
 	finished  func() bool
@@ -741,6 +759,7 @@ func (w *c06World) runOp(name, lookupKey string, deadline time.Duration, f func(
 	ob := &c06OpObs{name: name, lookupKey: lookupKey, base: len(h.Snd.Snapshot()), getBase: len(w.getReplies), startAt: s.Now(), deadline: deadline, released: w.release, searchPfx: w.searchPfx}
 	w.release, w.searchPfx = false, ""
 	w.opStart = ob.startAt
+	ob.dsBase = w.ds.LogLen()
 	w.mu.Lock()
 	ob.arrBase = len(w.arrivals)
 	w.mu.Unlock()
@@ -1046,16 +1065,39 @@ func runC06PutValue(s *sim.Sim) {
 	defer w.h.closeAndCensus()
 	defer w.endOp()
 
-	nOps := 1 + s.Draw("ops", 2)
+	nOps := 1 + s.Draw("ops", 3)
 	keys := []string{fmt.Sprintf("key-%d", s.Draw("key", 1<<16)), fmt.Sprintf("other-%d", s.Draw("key2", 1<<16))}
+	var lastKey string
+	var lastVal []byte
 	for i := 0; i < nOps && !s.Failed(); i++ {
 		key := keys[0]
-		if i > 0 && s.Chance("other-key", 1, 2) {
-			key = keys[1]
+		var val []byte
+		if i > 0 {
+			// virtual time between two puts: a publisher puts again at once, a
+			// moment later, or after minutes (nothing is in flight: PutValue
+			// waits for all its recipients)
+			if gap := []time.Duration{0, 700 * time.Millisecond, 45 * time.Second, 20 * time.Minute}[s.Draw("put-gap", 4)]; gap > 0 {
+				s.Sleep(gap)
+				s.Count("time_advance")
+				s.Count("probe_put_after_time_gap")
+				s.Tracef("gap %v", gap)
+			}
+			switch s.Draw("next-put", 3) {
+			case 1:
+				// a republish: the very key and value of the previous put
+				key, val = lastKey, lastVal
+			case 2:
+				key = keys[1]
+			}
 		}
-		rank := 1 + s.Draw("rank", 3)
-		val := rankValue(rank, time.Time{}, key)
+		if val == nil {
+			val = rankValue(1+s.Draw("rank", 3), time.Time{}, key)
+		}
+		lastKey, lastVal = key, val
 		prev, had := w.localRecord(key)
+		if had && bytes.Equal(prev, val) {
+			s.Count("probe_put_republish_same_value")
+		}
 		ob := w.runOp(fmt.Sprintf("PutValue#%d", i), key, 0, func(ctx context.Context) (any, error) {
 			return nil, w.h.DHT.PutValue(ctx, key, val)
 		}, nil)
@@ -1099,6 +1141,22 @@ func (w *c06World) checkPutValue(ob *c06OpObs, key string, val []byte, hadPrev b
 		s.Count("probe_put_over_existing")
 	}
 	w.checkRecipients("pv", "PutValue", msgs, R, false, false)
+	if s.Failed() {
+		return
+	}
+	// pv-store-own for a lookup that succeeded without returning any peer: the
+	// record was stored by this call all the same (with recipients the rule is
+	// judged in checkPutContent, against the first PUT_VALUE)
+	if len(msgs) == 0 {
+		s.Count("probe_put_own_store_judged_no_recipient")
+		if _, own := w.ownStore(ob, key, val); !own {
+			s.Violate("pv-store-own", "%s(%q): the closest-peers lookup succeeded (no peer returned, err=%v), yet the datastore log shows no write of that record since the operation started (the local datastore held %q before, present=%v): this call did not store the record locally", ob.name, key, ob.op.Err, prev, hadPrev)
+			return
+		}
+	}
+	if hadPrev && bytes.Equal(prev, val) {
+		s.Count("probe_put_republish_judged")
+	}
 	if cur, has := w.localRecord(key); ob.op.Err == nil && (!has || !bytes.Equal(cur, val)) {
 		s.Violate("pv-stored", "after PutValue(%q) returned nil the local datastore holds %q (present=%v)", key, cur, has)
 	}
@@ -1159,8 +1217,36 @@ func (w *c06World) checkPutContent(ob *c06OpObs, key string, val []byte) ([]*sim
 			s.Violate("pv-store-log", "the first PUT_VALUE for %q left at step %d but the datastore log shows no earlier write of that record", key, first)
 			return msgs, false
 		}
+		// ... made by this very operation (pv-store-own, see the header): a copy
+		// an earlier operation left behind is not the store of this call
+		s.Count("probe_put_own_store_judged")
+		if step, own := w.ownStore(ob, key, val); !own || step > first {
+			s.Violate("pv-store-own", "%s: the first PUT_VALUE for %q left at step %d; the datastore log shows no write of that record between the start of the operation and that step (own write found: %v, at step %d) - the record in the local datastore is the copy an earlier operation stored, this call did not store the record it sent", ob.name, key, first, own, step)
+			return msgs, false
+		}
 	}
 	return msgs, true
+}
+
+// ownStore looks for the store an operation made itself: the first successful
+// datastore write since the operation started whose content decodes as a
+// record for key carrying val (found by content, without mirroring the
+// datastore key layout). It returns the step of that write.
+func (w *c06World) ownStore(ob *c06OpObs, key string, val []byte) (step int, found bool) {
+	log := w.ds.Log()
+	if ob.dsBase > len(log) {
+		return 0, false
+	}
+	for _, rec := range log[ob.dsBase:] {
+		if rec.Op != "put" || rec.Err != nil {
+			continue
+		}
+		pr := new(recpb.Record)
+		if proto.Unmarshal(rec.Val, pr) == nil && string(pr.GetKey()) == key && pr.Value != nil && bytes.Equal(pr.GetValue(), val) {
+			return rec.Step, true
+		}
+	}
+	return 0, false
 }
 
 func (w *c06World) lookupProbes(R []peer.ID, v *lookupView) {
